@@ -7,6 +7,17 @@ def main(tier):
     v = Verdict("C12", tier)
     ev = dict(tlc=[])
     run_reader_check(v, "C12", tier, {"linear"}, ev)
+    # a COUNT of files: more than 2^16 files (ids above 65 535), everything and a subset extracted linearly
+    import json
+    import os
+    nmany = 66000 if tier == "quick" else 140000
+    mo = os.path.join(workdir("c12-many"), "many.json")
+    mbt("prod", "many", "roundtrip", mo, str(nmany), "raw" if tier == "quick" else "raw,comp+enc", timeout=3000)
+    mres = json.load(open(mo))
+    for viol in mres["violations"]:
+        v.violation(dict(check="many-files", kind=viol["kind"], op="linear", stack=viol["stack"]), dict(engine="many", files=nmany, detail=viol["detail"]))
+    ev["many_files"] = dict(files=nmany, stacks_ok=mres["stacks_ok"])
+    log(f"[C12] {nmany} files (ids beyond 2^16): listed, sampled, extracted linearly (all, and a subset) under {mres['stacks_ok']}")
     return v.finish("model_checking", coverage(ev, v,
         "FileReader model: Linear(sel) for the empty set, every singleton, first+last and all files from every reachable "
         "reader state; replayed with the real helpers::linear_extract into sinks accepting 1..7 bytes per write and "
